@@ -25,6 +25,7 @@ import (
 	"github.com/rpcpool/yellowstone-faithful/blocktimeindex"
 	"github.com/rpcpool/yellowstone-faithful/bucketteer"
 	"github.com/rpcpool/yellowstone-faithful/carreader"
+	"github.com/rpcpool/yellowstone-faithful/compactindexsized"
 	deprecatedbucketter "github.com/rpcpool/yellowstone-faithful/deprecated/bucketteer"
 	"github.com/rpcpool/yellowstone-faithful/gsfa"
 	hugecache "github.com/rpcpool/yellowstone-faithful/huge-cache"
@@ -888,6 +889,11 @@ func (ser *Epoch) GetBlock(ctx context.Context, slot uint64) (*ipldbindcode.Bloc
 	if err != nil {
 		return nil, cid.Cid{}, fmt.Errorf("failed to decode block with CID %s: %w", wantedCid, err)
 	}
+	if uint64(decoded.Slot) != slot {
+		// The index only compares a short hash of the key: a slot without a block can
+		// resolve to the block of another slot.
+		return nil, cid.Cid{}, fmt.Errorf("block with CID %s is for slot %d, not %d: %w", wantedCid, decoded.Slot, slot, compactindexsized.ErrNotFound)
+	}
 	return decoded, wantedCid, nil
 }
 
@@ -965,6 +971,11 @@ func (ser *Epoch) GetTransaction(ctx context.Context, sig solana.Signature) (*ip
 	decoded, err := iplddecoders.DecodeTransaction(data)
 	if err != nil {
 		return nil, cid.Cid{}, fmt.Errorf("failed to decode transaction with CID %s: %w", wantedCid, err)
+	}
+	if got, err := decoded.Signature(); err == nil && got != sig {
+		// The index only compares a short hash of the key: a signature that is not
+		// archived can resolve to another transaction.
+		return nil, cid.Cid{}, fmt.Errorf("transaction with CID %s has signature %s, not %s: %w", wantedCid, got, sig, compactindexsized.ErrNotFound)
 	}
 	return decoded, wantedCid, nil
 }
